@@ -237,6 +237,16 @@ def proof_obligations(ctx):
     ctx.cov["axioms_used"] = sorted(axioms_used)
     ctx.cov["theorems"] = ["PM.%s.%s" % (pid, t) for t in thms]
     scan_forbidden(ctx)
+    if ctx.tier == "thorough":
+        # independent re-check of the compiled property module by the toolchain's external kernel checker
+        import shutil
+        if shutil.which("leanchecker"):
+            rc, out, err = sh(["lake", "env", "leanchecker", "PasetoModel.Props." + pid], cwd=LEAN, timeout=3600)
+            ctx.cov["leanchecker"] = "ok" if rc == 0 else "FAILED"
+            if rc != 0:
+                ctx.p_broken.append({"theorem": "(leanchecker) PasetoModel.Props." + pid, "detail": (out + err)[-800:]})
+            else:
+                ctx.note("leanchecker re-checked PasetoModel.Props.%s" % pid)
     return not ctx.p_broken
 
 
